@@ -1,5 +1,6 @@
 import EinxModel.Props.C08b
 import EinxModel.Proofs.DenoteDotPerm
+import EinxModel.Proofs.DenoteConcatLaws
 /-!
 C08 (continued) — the open issues of work package c08, closed by work package c08c.  All laws are about the executable
 loop forms `Denote.denoteDot`, `Denote.denoteElementwise`, `Denote.denoteId` (the functions the driver runs and the
@@ -359,5 +360,69 @@ example :
         = okOpt (denoteElementwise "where" ins eo) :=
   ⟨by decide +kernel, denote_elementwise_permute_input "where" _ 0 _ _ _ [2, 0, 1] rfl (by decide +kernel)
     (by decide +kernel) (by decide +kernel) (by decide +kernel) rfl (by decide +kernel)⟩
+
+/-! ### (ii) concatenations: parentheses -/
+
+theorem map_entries_id (x : Option (List (Nat × Cell))) : x.map (List.map (fun e => (e.1, id e.2))) = x := by
+  cases x with
+  | none => rfl
+  | some l => simp
+
+theorem map_tensors_id (x : Option (List (Tensor Cell))) : x.map (List.map (Tensor.map id)) = x := by
+  have : (Tensor.map id : Tensor Cell → Tensor Cell) = id := by
+    funext t; cases t; simp [Tensor.map]
+  cases x with
+  | none => rfl
+  | some l => simp [this]
+
+/-- **Grouping adjacent axes of an input expression of `id` with parentheses (and reshaping its tensor) leaves the
+results unchanged -- for arbitrary solved expressions, concatenations included** (in `pre`, `mid`, `post`, in the other
+inputs and in the outputs; any number of tensors).  The enumeration of the virtual tensors commutes with grouping
+(`viewsFuel_regroup`: the leftmost concatenation is the same one, depth first), every virtual tensor has the shape of
+the real one (`views_viewShape`), and reading a regrouped view from the reshaped tensor is reading the original view
+from the original tensor (`cellAt_regroup`, valid for chosen blocks of concatenations as well).  No hypothesis. -/
+theorem denoteId_regroup_input_concat (exprsIn exprsOut : List Expr) (j : Nat) (pre mid post : List Expr) :
+    okOpt (denoteId (exprsIn.set j (grouped pre mid post)) exprsOut)
+      = okOpt (denoteId (exprsIn.set j (ungrouped pre mid post)) exprsOut) := by
+  rw [denoteId_fun_agree_general, denoteId_fun_agree_general]
+  have key := denoteIdFunG_congr_in id (exprsIn.set j (grouped pre mid post)) (exprsIn.set j (ungrouped pre mid post))
+    exprsOut ?_
+  · rw [map_tensors_id] at key; exact key
+  · unfold idVin
+    apply forall₂_flatMap₂ _ _ (forall₂_zipIdx_set exprsIn j _ _)
+    rintro ⟨x, i⟩ ⟨y, i'⟩ ⟨hi, hxy⟩
+    simp only at hi hxy
+    subst hi
+    rcases hxy with rfl | ⟨rfl, rfl⟩
+    · apply List.forall₂_same.mpr
+      intro a _ z
+      exact map_entries_id _
+    · rw [List.forall₂_map_left_iff, List.forall₂_map_right_iff]
+      refine (views_regroup pre mid post).imp ?_
+      rintro g u ⟨⟨P, M, Q, rfl, rfl⟩, hg, hu⟩ z
+      rw [map_entries_id]
+      have h1 : shapeOf (grouped pre mid post) = viewShape (P ++ [Dim.flat M] ++ Q) := by
+        rw [shapeOf_eq, rootDims_grouped, hg]
+      have h2 : shapeOf (ungrouped pre mid post) = viewShape (P ++ M ++ Q) := by
+        rw [shapeOf_eq, rootDims_ungrouped, hu]
+      simp only [h1, h2]
+      exact idPairEntries_regroup_in exprsOut P M Q i z
+
+/-- Non-vacuity: `id: a (b + c) d, e -> (a (b + c) d + e)`-like operation with a concatenation *inside* the group:
+`a ((b + c) d) -> ((b + c) d) a` against `a (b + c) d -> ((b + c) d) a`, a = 2, b = 1, c = 2, d = 2.  Neither side is
+concatenation-free, both are defined, the shapes of the inputs differ, the results are equal and a genuine
+rearrangement of 12 elements. -/
+example :
+    let a := Expr.axis "a" 2; let b := Expr.axis "b" 1; let c := Expr.axis "c" 2; let d := Expr.axis "d" 2
+    let G := grouped [a] [.concat [b, c], d] []; let U := ungrouped [a] [.concat [b, c], d] []
+    let eo := Expr.list [.flat (.list [.concat [b, c], d]), a]
+    Expr.concatFreeL [G] = false ∧ shapeOf G = [2, 6] ∧ shapeOf U = [2, 3, 2] ∧
+    (match okOpt (denoteId [G] [eo]), okOpt (denoteId [U] [eo]) with
+      | some [t1], some [t2] => Tensor.beq t1 t2 && t1.shape == [6, 2] &&
+          Cell.beqL (t1.data.take 4) [.src 0 0, .src 0 6, .src 0 1, .src 0 7]
+      | _, _ => false) = true ∧
+    okOpt (denoteId ([G].set 0 G) [eo]) = okOpt (denoteId ([G].set 0 U) [eo]) :=
+  ⟨by decide +kernel, by decide +kernel, by decide +kernel, by decide +kernel,
+    denoteId_regroup_input_concat _ _ 0 _ _ _⟩
 
 end Einx.C08c
